@@ -581,11 +581,12 @@ func (c *compiler) VisitFuncDecl(decl *ast.FuncDecl) ast.VisitResult {
 	for _, param := range decl.Parameters {
 		paramIrType := c.getPossiblyGenericParamType(&param)
 
-		params = append(params, ir.NewParam(param.Name.Literal, paramIrType)) // add it to the list
+		params = append(params, cAbiParam(ir.NewParam(param.Name.Literal, paramIrType))) // add it to the list
 	}
 
 	irFunc := c.mod.NewFunc(c.mangledNameDecl(decl), retTypeIr, params...) // create the ir function
 	irFunc.CallingConv = enum.CallingConvC                                 // every function is called with the c calling convention to make interaction with inbuilt stuff easier
+	cAbiReturn(irFunc)
 	// make private functions static like in C
 	// commented out because of generics where private functions might be called
 	// from a different module
@@ -2278,17 +2279,34 @@ func (c *compiler) declareImportedFuncDecl(decl *ast.FuncDecl) {
 
 	// append all the other parameters
 	for _, param := range decl.Parameters {
-		ty := c.getPossiblyGenericParamType(&param)                  // convert the type of the parameter
-		params = append(params, ir.NewParam(param.Name.Literal, ty)) // add it to the list
+		ty := c.getPossiblyGenericParamType(&param)                             // convert the type of the parameter
+		params = append(params, cAbiParam(ir.NewParam(param.Name.Literal, ty))) // add it to the list
 	}
 
 	irFunc := c.mod.NewFunc(mangledName, retTypeIr, params...) // create the ir function
 	irFunc.CallingConv = enum.CallingConvC                     // every function is called with the c calling convention to make interaction with inbuilt stuff easier
+	cAbiReturn(irFunc)
 	// declare it as extern function
 	irFunc.Linkage = enum.LinkageExternal
 	irFunc.Visibility = enum.VisibilityDefault
 
 	c.insertFunction(irFunc.Name(), decl, irFunc)
+}
+
+// A Wahrheitswert is an i1 whose upper bits are unspecified unless it is marked zeroext;
+// C functions (bool) rely on the value being 0 or 1 in the whole byte
+
+func cAbiParam(param *ir.Param) *ir.Param {
+	if param.Typ.Equal(ddpbool) {
+		param.Attrs = append(param.Attrs, enum.ParamAttrZeroExt)
+	}
+	return param
+}
+
+func cAbiReturn(fun *ir.Func) {
+	if fun.Sig.RetType.Equal(ddpbool) {
+		fun.ReturnAttrs = append(fun.ReturnAttrs, enum.ReturnAttrZeroExt)
+	}
 }
 
 func (c *compiler) declareImportedVarDecl(decl *ast.VarDecl) {
